@@ -351,7 +351,10 @@ func (s *scanCtx) FindComments(pkg *packages.Package, name string) (*ast.Comment
 			for _, s := range gd.Specs {
 				if ts, ok := s.(*ast.TypeSpec); ok {
 					if ts.Name.Name == name {
-						return gd.Doc, true
+						if ts.Doc != nil { // type ( /* doc */ Foo struct{} )
+							return ts.Doc, true
+						}
+						return gd.Doc, true // /* doc */  type ( Foo struct{} )
 					}
 				}
 			}
